@@ -229,6 +229,9 @@ var keyPool = func() []keyEntry {
 		builtinKey[int]("http_status", tyInt, errdef.HTTPStatus, errdef.HTTPStatusFrom),
 		// pointers to non-scalar, non-JSON element types (tryConvertPointer): unmarshal checks only
 		mkKey[*[2]int]("parr", 125), mkKey[**string]("pps", 126),
+		// non-empty interface types: NewValue's assertion fails for every decoded value and
+		// ZeroValue().Value() is nil (unmarshal checks only)
+		mkKey[error]("ierr", 127), mkKey[fmt.Stringer]("istr", 128),
 	}
 	for i := range ks {
 		ks[i].ID = i
